@@ -335,7 +335,7 @@ func genScript(t *rapid.T) Script {
 		r.Method = rapid.SampledFrom([]string{"GET", "GET", "PUT"}).Draw(t, "method")
 		r.Both = rapid.IntRange(0, 4).Draw(t, "both") == 0
 		r.Desired = rapid.SampledFrom([]string{"", "", "repository:bar:pull", "repository:foo:pull,push", "repository:foo:push repository:bar:pull", "repository:bar:push", "registry:catalog:*"}).Draw(t, "desired")
-		r.SleepMs = rapid.SampledFrom([]int{0, 0, 500, 1000, 1500, 2500, 61000}).Draw(t, "sleep")
+		r.SleepMs = rapid.SampledFrom([]int{0, 0, 500, 1000, 1500, 2500, 61000, 57000, 58200, 59300}).Draw(t, "sleep")
 		if batch == 0 && rapid.IntRange(0, 7).Draw(t, "startBatch") == 0 {
 			batch = i + 1
 		}
